@@ -78,7 +78,7 @@ pub fn bidir_types() -> Vec<(&'static str, Ty)> {
         ("CredentialProtectionPolicy", Ty::Enum(&CRED_PROTECT)),
         ("getAssertion.UnsignedExtensionOutputs", Ty::EmptyMap),
     ];
-    if F_G {
+    if f_g() {
         v.push(("getInfo.Certifications", certifications()));
     }
     v
